@@ -407,6 +407,14 @@ def residuals(rc):
         rc.fail(fi, fn, "the conditional test must correlate the two residuals", construct="correlate residuals")
     if not unc:
         rc.fail(fi, fn, "the unconditional test must correlate X with Y", construct="correlate raw")
+    # the conditioning set is the caller's: it is never filtered by a data-dependent test (an absolute threshold on a column's spread breaks invariance to rescaling)
+    for n in walk_no_nested(fn):
+        if isinstance(n, ast.Assign) and any(dotted(t) == "Z" for t in n.targets):
+            v = n.value
+            plain = (isinstance(v, ast.Call) and call_name(v) in ("list", "tuple", "sorted") and v.args and dotted(v.args[0]) == "Z") or (isinstance(v, ast.List) and [dotted(x) for x in v.elts] == ["Z"])
+            if not plain:
+                rc.fail(fi, n, f"`{norm(n, 90)}` re-binds the conditioning set: every variable in Z must be regressed out; dropping some by a data-dependent test (e.g. a spread below an "
+                        "absolute threshold) changes the verdict under rescaling of that variable", construct="conditioning set filtered")
     # the statistic and p-value that reach the result come from the Pearson test on every path (no literal substituted under a data-dependent guard)
     res_names = set()
     for n in walk_no_nested(fn):
